@@ -11,7 +11,6 @@ use super::{
 };
 use alloc::vec::Vec;
 use serde::Deserialize;
-use serde_json::Deserializer;
 
 /// A connection that can only be used for reading.
 ///
@@ -121,10 +120,15 @@ impl<Read: ReadHalf> ReadConnection<Read> {
     {
         self.read_from_socket().await?;
 
-        let mut stream = Deserializer::from_slice(&self.buffer[self.msg_pos..]).into_iter::<M>();
-        let msg = stream.next();
-        let null_index = self.msg_pos + stream.byte_offset();
+        // The message ends at the first null byte. `read_from_socket` only returns once the data
+        // ends in one, so there always is one. Don't rely on the deserializer to find the end of
+        // the message, as it stops early on errors and doesn't consume trailing whitespace.
+        let null_index = self.buffer[self.msg_pos..self.read_pos]
+            .iter()
+            .position(|&b| b == b'\0')
+            .map_or(self.read_pos, |i| self.msg_pos + i);
         let buffer = &self.buffer[self.msg_pos..null_index];
+        let msg = serde_json::from_slice::<M>(buffer);
         if self.buffer[null_index + 1] == b'\0' {
             // This means we're reading the last message and can now reset the indices.
             self.read_pos = 0;
@@ -134,7 +138,7 @@ impl<Read: ReadHalf> ReadConnection<Read> {
         }
 
         match msg {
-            Some(Ok(msg)) => {
+            Ok(msg) => {
                 // SAFETY: Since the parsing from JSON already succeeded, we can be sure that the
                 // buffer contains a valid UTF-8 string.
                 trace!("connection {}: received a message: {}", self.id, unsafe {
@@ -142,8 +146,7 @@ impl<Read: ReadHalf> ReadConnection<Read> {
                 });
                 Ok(msg)
             }
-            Some(Err(e)) => Err(e.into()),
-            None => Err(crate::Error::UnexpectedEof),
+            Err(e) => Err(e.into()),
         }
     }
 
